@@ -262,6 +262,10 @@ def execute(plan: dict) -> dict:
                     )
                 )
                 return
+            bad = RW.attrs_mismatch(sess.table, variants, nb)
+            if bad:
+                violations.append(viol('C04/attributes-differ-from-request', f'neighbor {nb["peer_ip"]} after burst {state["burst"]}: {bad}'))
+                return
             for k, want in intended[i].t.items():
                 if want[0] == 'unknown':
                     continue
